@@ -244,8 +244,40 @@ impl Ctx {
         self.find_at(args, SystemTime::now())
     }
 
+    /// Run find on a starting point OUTSIDE the sandbox ("/", "/dev": the only places with mount
+    /// points in them).  Allowed only for command lines that cannot change anything and cannot go
+    /// deep: every word is from a fixed list of tests/options, `-maxdepth` is 0 or 1, and the only
+    /// actions are -print/-print0.
+    pub fn find_system_readonly(&mut self, args: &[&str]) -> FindOut {
+        const ALLOWED: &[&str] = &["-P", "-H", "-L", "-maxdepth", "-mindepth", "-xdev", "-mount", "-sorted", "-name", "-path", "-type", "-prune", "-print", "-print0", "-o", "-a", "!", "(", ")", "-true", "-false"];
+        let mut maxdepth_ok = false;
+        for (i, a) in args.iter().enumerate() {
+            let operand = i > 0 && ["-maxdepth", "-mindepth", "-name", "-path", "-type"].contains(&args[i - 1]);
+            if operand {
+                if args[i - 1] == "-maxdepth" {
+                    maxdepth_ok = *a == "0" || *a == "1";
+                }
+                continue;
+            }
+            if a.starts_with('/') && !a.contains("..") {
+                continue; // a starting point
+            }
+            if !ALLOWED.contains(a) {
+                inconclusive(&format!("guard: {a:?} is not allowed on a starting point outside the sandbox"));
+            }
+        }
+        if !maxdepth_ok {
+            inconclusive("guard: a walk outside the sandbox needs -maxdepth 0 or 1");
+        }
+        self.find_inner(args, SystemTime::now())
+    }
+
     pub fn find_at(&mut self, args: &[&str], now: SystemTime) -> FindOut {
         self.guard_args(args);
+        self.find_inner(args, now)
+    }
+
+    fn find_inner(&mut self, args: &[&str], now: SystemTime) -> FindOut {
         self.runs_in_process += 1;
         let _ = self.take_stderr();
         let deps = Deps { out: RefCell::new(Vec::new()), now };
